@@ -442,6 +442,9 @@ type earlyCase struct {
 	After  []byte `json:"after"` // further plaintext that is never executed
 	Binary bool   `json:"binary"`
 	Cipher []byte `json:"cipher"` // the section as laid out in the file
+	// Next is clear text handed to the same interpreter in a further call
+	// after the run that ended early (nothing of the section may linger).
+	Next []byte `json:"next,omitempty"`
 }
 
 // stateAndError renders the interpreter state also when the run ends with an
@@ -453,11 +456,25 @@ func stateAndError(text []byte) (string, string) {
 	return pscanon.StateWithSystem(intp), pscanon.ErrorName(err)
 }
 
+// stateAndErrorThen is stateAndError followed by a second call with next on
+// the same interpreter; the error names of both calls are joined.
+func stateAndErrorThen(text, next []byte) (string, string) {
+	intp := postscript.NewInterpreter()
+	intp.MaxOps = 5_000_000
+	err := intp.Execute(bytes.NewReader(text))
+	err2 := intp.Execute(bytes.NewReader(next))
+	return pscanon.StateWithSystem(intp), pscanon.ErrorName(err) + " then " + pscanon.ErrorName(err2)
+}
+
 func checkEarly(c *earlyCase) string {
 	a := append(append(append([]byte{}, c.Pre...), "currentfile eexec\n"...), c.Cipher...)
 	b := append(append(append([]byte{}, c.Pre...), "systemdict begin "...), c.Plain...)
 	sa, ea := stateAndError(a)
 	sb, eb := stateAndError(b)
+	if len(c.Next) > 0 {
+		sa, ea = stateAndErrorThen(a, c.Next)
+		sb, eb = stateAndErrorThen(b, c.Next)
+	}
 	if ea != eb {
 		return fmt.Sprintf("a section whose plaintext ends early: the encrypted form ends with %q, the plaintext with the system dictionary pushed ends with %q\nplaintext: %q", ea, eb, clip(c.Plain))
 	}
@@ -480,7 +497,7 @@ func checkEarly(c *earlyCase) string {
 func TestP2Early(t *testing.T) {
 	rec := ev.New("C05", "early")
 	defer rec.Finish(t)
-	rec.Rule("sections whose plaintext does not reach closefile: after the probes, 0-3 `n dict begin` and a data program of the C02 generator the plaintext executes stop, an undefined name, a typecheck or a rangecheck (further plaintext follows and is never run); hex or binary layout with drawn prefix bytes. Oracle: the same interpreter fed `pre systemdict begin <plaintext>` ends with the same error name (none for stop) and in the same canonical state - operand stack, dictionary stack (the system dictionary and every dictionary the plaintext began are still on it), userdict, additions to systemdict. Non-trivial: always; distinct by file bytes.")
+	rec.Rule("sections whose plaintext does not reach closefile: after the probes, 0-3 `n dict begin` and a data program of the C02 generator the plaintext executes stop, an undefined name, a typecheck or a rangecheck (further plaintext follows and is never run); hex or binary layout with drawn prefix bytes. Oracle: the same interpreter fed `pre systemdict begin <plaintext>` ends with the same error name (none for stop) and in the same canonical state - operand stack, dictionary stack (the system dictionary and every dictionary the plaintext began are still on it), userdict, additions to systemdict; in three cases of five both forms are followed by a second call with clear text on the same interpreter, and error names and states are compared after it. Non-trivial: always; distinct by file bytes.")
 	cfg := psgen.Config{TypeLiteral: true}
 	ev.SetupRapid(6000, 200000)
 	rapid.Check(t, func(t *rapid.T) {
@@ -503,6 +520,10 @@ func TestP2Early(t *testing.T) {
 		c.Plain = append([]byte{}, plain.Bytes()...)
 		c.After = []byte("\n/notreached 1 def end end mark currentfile closefile\n")
 		c.Binary = rapid.Bool().Draw(t, "binary")
+		c.Next = []byte(rapid.SampledFrom([]string{"", "", "/next 7 def (abc) length", "<616263> length /k exch def\n", "/s 3 string def s 0 65 put s", "%!PS\n12 34 add", "nosuchname2"}).Draw(t, "next"))
+		if len(c.Next) > 0 {
+			rec.Class("followed by another call")
+		}
 		var c4 [4]byte
 		for i := range c4 {
 			c4[i] = byte(rapid.IntRange(0, 255).Draw(t, "c4"))
